@@ -24,8 +24,9 @@ type simpleMidPool struct {
 
 func newMIDPool(min, max int32) midPool {
 	return &simpleMidPool{
-		min: min,
-		max: max,
+		min:       min,
+		max:       max,
+		intervals: []interval{{from: min - 1, to: max}},
 	}
 }
 
@@ -33,10 +34,8 @@ func (m *simpleMidPool) Get() int32 {
 	m.mtx.Lock()
 	defer m.mtx.Unlock()
 	if len(m.intervals) == 0 {
-		m.intervals = []interval{
-			{from: m.min, to: m.max},
-		}
-		return m.min
+		// every identifier is outstanding
+		return -1
 	}
 	if m.intervals[0].from == m.max {
 		return -1
@@ -59,6 +58,14 @@ func (m *simpleMidPool) Put(mid int32) {
 		return m.intervals[i].from >= mid
 	})
 	if idx < len(m.intervals) && (m.intervals[idx].from < mid && m.intervals[idx].to >= mid) {
+		return
+	}
+	if len(m.intervals) == 0 {
+		m.intervals = []interval{{from: mid - 1, to: mid}}
+		return
+	}
+	if idx > 0 && m.intervals[idx-1].from < mid && m.intervals[idx-1].to >= mid {
+		// already free
 		return
 	}
 
